@@ -212,6 +212,9 @@ class Fxp():
         # scaling
         if self.scale is None: self.scale = kwargs.pop('scale', 1)
         if self.bias is None: self.bias = kwargs.pop('bias', 0)
+        # (a 0-dimensional array given as parameter is taken by value: the object does not follow later changes of the caller's array)
+        if isinstance(self.scale, np.ndarray) and self.scale.ndim == 0: self.scale = self.scale[()]
+        if isinstance(self.bias, np.ndarray) and self.bias.ndim == 0: self.bias = self.bias[()]
         self.scaled = True if self.scale != 1 or self.bias != 0 else False
 
         # check if val is a raw value
